@@ -1,0 +1,44 @@
+//go:build verif
+
+package journal
+
+import (
+	"sync/atomic"
+
+	"github.com/sboehler/knut/lib/common/verif"
+)
+
+var verifRun int64
+
+// verifWrap interposes, after each processor, an observer that runs while the
+// stage still owns the Day (after the change, before the Day is pushed on) and
+// emits one StageDay event.
+func verifWrap(fs []func(*Day) error) []func(*Day) error {
+	run := atomic.AddInt64(&verifRun, 1)
+	res := make([]func(*Day) error, len(fs))
+	for i, f := range fs {
+		i, f := i, f
+		res[i] = func(d *Day) error {
+			err := f(d)
+			var trx []any
+			for _, t := range d.Transactions {
+				var ps []any
+				for _, p := range t.Postings {
+					ps = append(ps, map[string]any{
+						"a": p.Account.Name(), "o": p.Other.Name(), "c": p.Commodity.Name(),
+						"q": p.Quantity.String(), "v": p.Value.String(),
+					})
+				}
+				trx = append(trx, ps)
+			}
+			var e any
+			if err != nil {
+				e = err.Error()
+			}
+			verif.Emit("StageDay", "run", run, "stage", i+1, "of", len(fs), "day", d.Date.Format("2006-01-02"),
+				"trx", trx, "prices", len(d.Prices), "err", e)
+			return err
+		}
+	}
+	return res
+}
